@@ -179,7 +179,11 @@ def execute(sc, out):
         nf = len(base.f)
         base_raw = SS.raw_fields(base)
         base_vals = _all_values(base, ATTRS)
-        base_plan = SS.snapshot_plan(an0.plan())
+        try:
+            base_plan = SS.snapshot_plan(an0.plan())
+        except Exception as e:
+            out.violate("exception", "op=plan", f"plan() right after a successful compute() on a fresh analyzer raised {type(e).__name__}: {str(e)[:200]}")
+            return
         def knob_key():
             if world == "numpy":
                 return ("chunk", sess.spec.get("chunk"))
@@ -340,7 +344,10 @@ def execute(sc, out):
                             break
                         base_raw = SS.raw_fields(base)
                         base_vals = _all_values(base, ATTRS)
-                        base_plan = SS.snapshot_plan(an0.plan())
+                        try:
+                            base_plan = SS.snapshot_plan(an0.plan())
+                        except Exception:
+                            break
                         nf = len(base.f)
                         key0 = knob_key()
                         baselines.clear()
